@@ -22,6 +22,11 @@ pub fn opt_u32(v: &Value) -> Option<u32> {
     }
 }
 
+/// An optional volume in the real book's units (large-volume regime: specification units times the scale)
+pub fn opt_vol(v: &Value) -> Option<u32> {
+    opt_u32(v).map(|x| x.checked_mul(crate::vol_scale()).expect("harness: scaled volume out of range"))
+}
+
 /// An optional price: -1 = none, the specification's MaxPrice = u32::MAX
 pub fn opt_price(v: &Value) -> Option<u32> {
     match v.as_i64() {
@@ -96,7 +101,7 @@ impl<const L: usize> BookDyn for OrderBook<L> {
         match op {
             "create" | "cap" => {
                 let side = side_of(&l["side"]);
-                let vol = get_u64(l, "vol") as u32;
+                let vol = (get_u64(l, "vol") as u32).checked_mul(crate::vol_scale()).expect("harness: scaled volume out of range");
                 let tr = get_u64(l, "tr") as u32;
                 let price = opt_price(&l["price"]);
                 let r = if op == "create" {
@@ -118,7 +123,7 @@ impl<const L: usize> BookDyn for OrderBook<L> {
                 Value::Null
             }
             "modify" => {
-                self.modify_order(get_usize(l, "id"), opt_price(&l["p"]), opt_u32(&l["v"]));
+                self.modify_order(get_usize(l, "id"), opt_price(&l["p"]), opt_vol(&l["v"]));
                 Value::Null
             }
             "event" => {
@@ -129,7 +134,7 @@ impl<const L: usize> BookDyn for OrderBook<L> {
                     Some("modify") => Event::Modify {
                         order_id: id,
                         new_price: opt_price(&l["p"]),
-                        new_vol: opt_u32(&l["v"]),
+                        new_vol: opt_vol(&l["v"]),
                     },
                     _ => panic!("harness: bad event kind in {}", l),
                 };
